@@ -9,6 +9,7 @@ package harness
 import (
 	"fmt"
 	"math/big"
+	"math"
 	"os"
 	"sort"
 	"strings"
@@ -943,6 +944,12 @@ func TestC09(t *testing.T) {
 	c09WitnessBorrowLeak(t, app, base, tr) // repaired by c15713f: nothing is flagged, nothing moves
 	c09WitnessTransitBand(t, app, base, tr)
 
+	// ---- pure helper: the int64 wrap of offset+batchSize (Props/C09.lean slice_in_bounds_wrap_counterexample, finding D35:
+	//      the helper returns a negative end; monitor slice_bounds_wrap fires on the unchanged tree)
+	c09SliceCheck(tr, 5, 1, math.MaxInt64)
+	c09SliceCheck(tr, 1000, 999, math.MaxInt64-998)
+	c09SliceCheck(tr, 1000, 999, math.MaxInt64-999) // largest batch that does not wrap
+	tr.Count("slice:wrap witness")
 	// ---- pure helper: GetSliceStartEndForLiquidations, exhaustive small and wide random
 	for l := -2; l <= 9; l++ {
 		for o := -2; o <= 11; o++ {
